@@ -708,6 +708,21 @@ class Gen:
             self.fault_done = (KIND[kt] + " (loop bound)", ms(w))
             self.count("fault")
             hi = "(### FAULT ### %s)" % self.expr(w, 0, need_present=True)
+        # the counter may be a variable that already exists in this function: the loop then writes into it, so its
+        # type must be the kind of every value the loop stores (start + step), not e.g. the kind of the step alone
+        reused = None
+        if named and r.random() < 0.4:
+            same = self.vars(lambda v: v.ty == kt and not v.const and v.assignable and self.is_local(v))
+            other = self.vars(lambda v: v.ty in NUMS and v.ty != kt and not v.const and v.assignable and self.is_local(v))
+            if other and self.fault_at is not None and self.fault_done is None and r.random() < 0.5:
+                reused = r.choice(other)
+                self.fault_at = None
+                self.fault_done = (KIND[kt] + " (existing variable reused as loop counter)", ms(reused.ty))
+                self.count("fault")
+            elif same:
+                reused = r.choice(same)
+            if reused is not None:
+                name = reused.name
         self.emit("from %s %s %s%s%s {" % (lo, r.choice(["to", "through"]), hi, step, ", " + name if named else ""))
         self.ind += 1
         self.scopes.append({})
@@ -721,6 +736,8 @@ class Gen:
         self.scopes.pop()
         self.ind -= 1
         self.emit("}")
+        if reused is not None:
+            self.observe(reused.name, "loop-counter-reused:" + KIND[self.res(reused.ty)], reused.ty)
 
     def s_while(self):
         r = self.r
